@@ -1,0 +1,25 @@
+//go:build verif
+
+// Copyright 2026 The Scriggo Authors. All rights reserved.
+// Use of this source code is governed by a BSD-style
+// license that can be found in the LICENSE file.
+
+// Package c07 is a verification bridge (build tag "verif") that exposes the
+// unexported escapers of internal/runtime to the external correspondence
+// harness of property C07. It adds no behaviour.
+package c07
+
+import "github.com/open2b/scriggo/internal/runtime"
+
+// Escape calls the escaper named by which ("html", "htmlnoent", "attr", "js",
+// "json", "css", "path", "query") on s and returns the chunks it wrote, the
+// byte count it returned (-1 if it returns none) and its error.
+func Escape(which string, s string, escapeEntities, quoted bool) (chunks []string, n int, err error) {
+	return runtime.VerifC07Escape(which, s, escapeEntities, quoted)
+}
+
+// PrefixWithSpace calls runtime.prefixWithSpace.
+func PrefixWithSpace(c byte) bool { return runtime.VerifC07PrefixWithSpace(c) }
+
+// IsHexDigit calls runtime.isHexDigit.
+func IsHexDigit(c byte) bool { return runtime.VerifC07IsHexDigit(c) }
